@@ -278,7 +278,7 @@ func runC19(c *Ctx) {
 		bases = append(bases,
 			baseSpec{Cfg{}, nil},
 			baseSpec{Cfg{}, []Op{{Op: "ins", V: 2, K: 0}, {Op: "ins", V: 2, K: 2}}},
-			baseSpec{Cfg{Async: 1, Cache: true, Ext: ".obj"}, []Op{{Op: "ins", V: 3, K: 0}}},
+			baseSpec{Cfg{Async: 1, Cache: true, Ext: ".v1.obj"}, []Op{{Op: "ins", V: 3, K: 0}}},
 			baseSpec{Cfg{Index: 2, Lower: true}, []Op{{Op: "ins", V: 1, K: 0}}})
 	}
 	substBytes := []byte{0, '"', '{', '[', ']', '}', ',', ':', '0', '-', 'e', 0xFF}
